@@ -19,4 +19,7 @@ with cf.ThreadPoolExecutor(max_workers=6) as ex:
         ok = r.get('applies') and r.get('demo_clean_rc') == 0 and r.get('demo_modified_rc') not in (0, None) and r.get('suite_rc') == 0
         print(('VALID  ' if ok else 'INVALID'), r['dir'], 'fired:', sorted(r.get('fired', {})), 'errors:', sorted(r.get('errors', {})),
               '' if ok else {k: r.get(k) for k in ('applies', 'demo_clean_rc', 'demo_modified_rc', 'suite_rc', 'suite_tail')})
-json.dump(out, open('/tmp/scratch/seeded_results.json', 'w'), indent=1)
+dst = sys.argv[2] if len(sys.argv) > 2 else '/tmp/scratch/seeded_results.json'
+prev = json.load(open(dst)) if os.path.exists(dst) and len(sys.argv) > 2 else {}
+prev.update(out)
+json.dump(prev, open(dst, 'w'), indent=1)
